@@ -1776,6 +1776,87 @@ impl TInputProtocol for TCompactInputProtocol<&mut Bytes> {
         Ok(self.trans.split_to(size).into())
     }
 
+    /// The compact encoding is not fixed-width (varints, bools carried by the
+    /// field header), so values are skipped by reading them.
+    fn skip_till_depth(&mut self, field_type: TType, depth: i8) -> Result<usize, ThriftException> {
+        if depth == 0 {
+            return Err(new_protocol_exception(
+                ProtocolExceptionKind::DepthLimit,
+                format!("cannot parse past {:?}", field_type),
+            ));
+        }
+        let before = self.trans.len();
+
+        match field_type {
+            TType::Bool => {
+                self.read_bool()?;
+            }
+            TType::I8 => {
+                self.read_i8()?;
+            }
+            TType::I16 => {
+                self.read_i16()?;
+            }
+            TType::I32 => {
+                self.read_i32()?;
+            }
+            TType::I64 => {
+                self.read_i64()?;
+            }
+            TType::Double => {
+                self.read_double()?;
+            }
+            TType::Binary => {
+                self.read_bytes()?;
+            }
+            TType::Uuid => {
+                self.read_uuid()?;
+            }
+            TType::Struct => {
+                self.read_struct_begin()?;
+                loop {
+                    let field_ident = self.read_field_begin()?;
+                    if field_ident.field_type == TType::Stop {
+                        break;
+                    }
+                    self.skip_till_depth(field_ident.field_type, depth - 1)?;
+                    self.read_field_end()?;
+                }
+                self.read_struct_end()?;
+            }
+            TType::List => {
+                let list_ident = self.read_list_begin()?;
+                for _ in 0..list_ident.size {
+                    self.skip_till_depth(list_ident.element_type, depth - 1)?;
+                }
+                self.read_list_end()?;
+            }
+            TType::Set => {
+                let set_ident = self.read_set_begin()?;
+                for _ in 0..set_ident.size {
+                    self.skip_till_depth(set_ident.element_type, depth - 1)?;
+                }
+                self.read_set_end()?;
+            }
+            TType::Map => {
+                let map_ident = self.read_map_begin()?;
+                for _ in 0..map_ident.size {
+                    self.skip_till_depth(map_ident.key_type, depth - 1)?;
+                    self.skip_till_depth(map_ident.value_type, depth - 1)?;
+                }
+                self.read_map_end()?;
+            }
+            u => {
+                return Err(new_protocol_exception(
+                    ProtocolExceptionKind::DepthLimit,
+                    format!("cannot skip field type {:?}", &u),
+                ));
+            }
+        };
+
+        Ok(before - self.trans.len())
+    }
+
     #[inline]
     fn buf(&mut self) -> &mut Self::Buf {
         self.trans
